@@ -291,7 +291,22 @@ def run(prog, R):
     # SymbolType for Result: Err => Undefined
     sb = prog.body("<std::result::Result<oq3_semantics::symbols::SymbolRecord, oq3_semantics::symbols::SymbolError> as oq3_semantics::symbols::SymbolType>::symbol_type")
     if sb:
-        ps, _ = paths(prog, sb.npath)
+        def _res_model(se_, st, t, cal, args, site):
+            # Result / Option combinators as a branch on the variant: `r.as_ref().map_or(d, f)` is `match r { Ok(x) => f(x), Err(_) => d }`
+            nm = cal.rsplit("::", 1)[-1]
+            if not cal.startswith(("std::result::Result::", "core::result::Result::", "std::option::Option::", "core::option::Option::")) or not args:
+                return None
+            if nm in ("as_ref", "as_mut", "as_deref"):
+                return [((), args[0], False)]
+            if nm in ("map_or", "map_or_else") and len(args) == 3:
+                d_ = ("discr", args[0])
+                okv = 0 if "Result" in cal else 1
+                errv = 1 - okv
+                dflt = args[1] if nm == "map_or" else ("call", "{default}", (args[1],), site, False)
+                return [((("switch", d_, ("eq", errv), "isize", site),), dflt, False),
+                        ((("switch", d_, ("eq", okv), "isize", site),), ("call", "{mapped}", (args[2], ("field", args[0], 0)), site, False), False)]
+            return None
+        ps = SymExec(prog, sb, max_paths=500, call_model=_res_model).paths()
         nerr, bade = 0, []
         for p in ps:
             if "__diverged__" in p.env:
